@@ -151,6 +151,12 @@ def script_cases(tier, rng):
     # each paragraph text alone and in a small mix
     for t in texts:
         out.append((f'p={t!r}', B.ro_doc([B.story('A', [B.p(t), B.item('I1'), B.p('tail text')], md=B.timing_md(duration='1'))])))
+    # look-alikes nested inside items and metadata: only DIRECT children count
+    nested = E('mosExternalMetadata', E('mosSchema', text='v'), E('mosPayload', E('p', text='nested paragraph'),
+               E('item', E('itemID', text='nested-item'), E('itemSlug', text='n')), E('story', E('storyID', text='nested'))))
+    out.append(('nested look-alikes', B.ro_doc([B.story('A', [B.p('top'), B.item('I1', extra=[nested]), E('em', text='emphasis'),
+                                                                  E('p', E('p', text='inner p'), text='outer p'), B.item('I2')], md=B.timing_md(duration='1')),
+                                                 B.story('B', [E('i', text='i'), E('temp', text='t'), B.p('b')])])))
     # every interleaving of p / item / other for up to k children
     kinds = ('p', 'item', 'other')
     kmax = 4 if tier == 'quick' else 5
@@ -163,7 +169,7 @@ def script_cases(tier, rng):
                 elif c == 'item':
                     ch.append(B.item(f'I{j}'))
                 else:
-                    ch.append(E('storyNum', text=str(j)))
+                    ch.append(E(['storyNum', 'em', 'i', 'temp', 'te', 'm', 't', 'ite'][(j + k) % 8], text=str(j)))
             out.append((f'interleave {"".join(c[0] for c in combo)}',
                         B.ro_doc([B.story('A', ch), B.story('B', list(reversed(ch)), md=B.timing_md(text_time='2'))])))
     return out
